@@ -26,6 +26,7 @@ import traceback
 from .. import REPO
 from ..refmodels import c14_readers as ref
 
+PYTHON_O_STRIDE = {"quick": 4, "thorough": 2}      # every n-th case is repeated in an interpreter started with -O
 RULE = ("round trips: every simple graph / dag with <= 4 vertices, every digraph (loops allowed) with <= 3 "
         "vertices, every bipartite graph with <= 4 vertices (both sides may be empty), a fixed list of graphs with "
         "10..12 vertices, and seeded graphs with 0..15 vertices (half of them >= 10 vertices, densities 0..1, isolated "
